@@ -669,6 +669,18 @@ structure Tr (α : Type) where
 structure DataSet (α : Type) where
   xs : List α
   trans : List (Tr α)
+  /-- per point of `xs`: the values the numerical inversions returned for the `inv` nodes of the model
+      tree at that point (pre-order, as for `M.jac`); missing rows count as `[]` (a tree without
+      inversions needs none) -/
+  sols : List (List α) := []
+
+/-- the points of a data set, each with its row of inversion values -/
+def withSols {α} : List α → List (List α) → List (α × List α)
+  | [], _ => []
+  | x :: xs, [] => (x, []) :: withSols xs []
+  | x :: xs, s :: ss => (x, s) :: withSols xs ss
+
+def DataSet.points {α} (d : DataSet α) : List (α × List α) := withSols d.xs d.sols
 
 def Tr.name? {α} (t : Tr α) : Option String := match t.val with | .inl n => some n | .inr _ => none
 
@@ -706,15 +718,22 @@ def localizeSensitivities (trans : List (Tr α)) (row : List α) : Option (List 
 
 /-- one row of `Model._calculate_jacobian`: `jacobian[r, p_indices] -= sensitivities[r, :]`
     (`fixed = false`: NumPy buffered fancy-index semantics as in the code;
-     `fixed = true`: accumulating, the proposed repair) -/
-def jacRow (fixed : Bool) (m : M) (trans : List (Tr α)) (names : List String) (g : List α) (x : α) :
-    Option (List α) := do
+     `fixed = true`: accumulating, the proposed repair).  `sols` = what the numerical inversions of the
+    model tree returned at this point and these local parameters (inputs of the inversion rule, as in
+    `M.jac`).  The row is a function of the point, the data set's transformation and the global vector
+    only: no other data set, no earlier evaluation enters. -/
+def jacRowS (fixed : Bool) (m : M) (trans : List (Tr α)) (names : List String) (g : List α) (x : α)
+    (sols : List α) : Option (List α) := do
   let pl ← getLocalParams trans names g
-  let j ← m.jac x pl []
+  let j ← m.jac x pl sols
   let sens ← localizeSensitivities trans j
   let pidx := (pGlobalIndices trans names).filterMap id
   let zeros : List α := g.map fun _ => 0.0
   some ((if fixed then scatterAcc else scatterOp) (· - ·) zeros pidx sens)
+
+/-- the row of a model without inversions (`sols = []`) -/
+def jacRow (fixed : Bool) (m : M) (trans : List (Tr α)) (names : List String) (g : List α) (x : α) :
+    Option (List α) := jacRowS fixed m trans names g x []
 
 /-- `Fit._calculate_jacobian`: rows in the order models → conditions → data sets → points -/
 def fitJacobian (fixed : Bool) (models : List (M × List (DataSet α))) (g : List α) :
@@ -723,7 +742,7 @@ def fitJacobian (fixed : Bool) (models : List (M × List (DataSet α))) (g : Lis
   if names.length != g.length then none
   let rows ← (models.flatMap fun md =>
       (groupConditions md.2).flatMap fun grp =>
-        grp.flatMap fun d => d.xs.map fun x => jacRow fixed md.1 d.trans names g x).mapM id
+        grp.flatMap fun d => d.points.map fun xs => jacRowS fixed md.1 d.trans names g xs.1 xs.2).mapM id
   some (names, rows)
 
 end fit
@@ -764,13 +783,21 @@ def parseTr (tok : String) : Option (Tr Float) :=
   else if tok.startsWith "c:" then (flt? (tok.drop 2).toString).map fun v => ⟨tok, .inr v⟩
   else none
 
+/-- `xs [S<per-point inversion values, [a,b;c,d]>] n tr*n` -/
 def parseData : List String → Option (DataSet Float × List String)
-  | xs :: n :: rest => do
+  | xs :: s :: rest => do
     let xs ← fltList? xs
-    let n ← nat? n
-    if rest.length < n then none
-    let trs ← (rest.take n).mapM parseTr
-    some (⟨xs, trs⟩, rest.drop n)
+    let (sols, rest) ← (if s.startsWith "S" then
+        (listListOf? flt? (s.drop 1).toString).map fun ss => (ss, rest)
+      else some ([], s :: rest) : Option (List (List Float) × List String))
+    if !sols.isEmpty && sols.length != xs.length then none
+    match rest with
+    | n :: rest => do
+      let n ← nat? n
+      if rest.length < n then none
+      let trs ← (rest.take n).mapM parseTr
+      some (⟨xs, trs, sols⟩, rest.drop n)
+    | [] => none
   | _ => none
 
 def parseMany {γ} (p : List String → Option (γ × List String)) : Nat → List String → Option (List γ × List String)
